@@ -402,6 +402,19 @@ pub fn c18(args: &Args) -> Report {
             }
         }
     }
+    // closure: the receiver's user cancels while the sender is still in its data phase, or the
+    // Finished PDU crosses the sender's own check limit
+    for by in [Side::R, Side::S] {
+        let mut s = Scenario::base(&format!("c18 unack+closure size=40 cancel@{:?} + F=1 d", by));
+        s.ack = false;
+        s.closure = true;
+        s.file_size = Some(40);
+        s.max_count = 1;
+        s.user = vec![(by, UserOp::Cancel, 1)];
+        s.faults = 1;
+        s.k_drop = true;
+        scns.push(s);
+    }
     let res = run_all(scns, mk, args.tier);
     with_conformance(fold(res, &GEN, 0, json!({})), &[(false, false), (false, true)])
 }
@@ -513,6 +526,23 @@ pub fn c19(args: &Args) -> Report {
             }
         }
     }
+    // a Prompt requested while the sender is suspended (the suspension may outlast every limit)
+    for op in [UserOp::PromptKeepAlive, UserOp::PromptNak] {
+        let mut s = Scenario::base(&format!("c19 ack size=17 max_count=2 suspend/{:?}/resume@S + blackout", op));
+        s.file_size = Some(17);
+        s.max_count = 2;
+        s.user = vec![(Side::S, UserOp::Suspend, 1), (Side::S, op, 1), (Side::S, UserOp::Resume, 1)];
+        s.blackout = vec![LinkId::RS];
+        s.idle = 1;
+        scns.push(s);
+    }
+    // the receiver suspended while it waits for the answer to a NAK, and that answer lost
+    let mut s = Scenario::base("c19 ack size=17 suspend/resume@R F=2 d");
+    s.file_size = Some(17);
+    s.user = vec![(Side::R, UserOp::Suspend, 1), (Side::R, UserOp::Resume, 1)];
+    s.faults = 2;
+    s.k_drop = true;
+    scns.push(s);
     let res = run_all(scns, mk, args.tier);
     with_conformance(fold(res, &["panic", "codec", "livelock"], 0, json!({})), &[(true, false), (false, false)])
 }
